@@ -50,7 +50,7 @@ def explore(tier, seed, res=None, replay=None):
         nd["n"] = [r.randrange(3, 12) for _ in range(len(nd))]
         # ---- binary ------------------------------------------------------------------------------
         for var, succ in (("k", None), ("k", 2), ("k", 7), ("h", "'q'"), ("h", "'zz'"), ("f", None),
-                          ("k", 1)):
+                          ("k", 1), ("co", None), ("cu", None), ("kz", 0), ("kz", None), ("co", "'mid'")):
             for fn in ("binary", "B"):
                 res.evaluations += 1
                 arg = f"{fn}({var})" if succ is None else f"{fn}({var}, {succ})"
@@ -125,7 +125,9 @@ def explore(tier, seed, res=None, replay=None):
         # ---- aliases: identical designs ------------------------------------------------------------
         for a, b in (("B(k, 2)", "binary(k, 2)"), ("standardize(x)", "scale(x)"),
                      ("T(f, 'b')", "C(f, Treatment('b'))"), ("S(g, 'v')", "C(g, Sum('v'))"),
-                     ("T(f)", "C(f, Treatment)"), ("S(f)", "C(f, Sum)")):
+                     ("T(f)", "C(f, Treatment)"), ("S(f)", "C(f, Sum)"),
+                     ("S(kz, 0)", "C(kz, Sum(0))"), ("T(kz, 0)", "C(kz, Treatment(0))"),
+                     ("S(kz, -1)", "C(kz, Sum(-1))"), ("T(kz, 1)", "C(kz, Treatment(1))")):
             res.evaluations += 1
             case = {"helper": f"{a} vs {b}", "seed_path": fi}
             try:
